@@ -25,4 +25,4 @@ META = dict(
 
 
 def run(ctx):
-    base.sweep(ctx, "C09", 45 if ctx.quick else 1200, [3, 3, 4, 5], nbool=50 if ctx.quick else 900, ndecomp=130 if ctx.quick else 2500)
+    base.sweep(ctx, "C09", 45 if ctx.quick else 250, [3, 3, 4, 5], nbool=50 if ctx.quick else 250, ndecomp=130 if ctx.quick else 650)
